@@ -7,19 +7,23 @@ use serde_json::json;
 
 pub mod c01;
 pub mod c04;
+pub mod c06;
 pub mod c07;
 pub mod c08;
 pub mod c10;
 pub mod c11;
+pub mod c19;
 
 pub fn run(prop: &str, tier: &str) -> ! {
 	match prop {
 		"C01" => c01::run(tier),
 		"C04" => c04::run(tier),
+		"C06" => c06::run(tier),
 		"C07" => c07::run(tier),
 		"C08" => c08::run(tier),
 		"C10" => c10::run(tier),
 		"C11" => c11::run(tier),
+		"C19" => c19::run(tier),
 		_ => machinery_error(&format!("unknown property {}", prop)),
 	}
 }
@@ -117,6 +121,7 @@ pub fn replay(path: &str) -> ! {
 				},
 			}
 		},
+		"pagemc" => c19::replay(&j),
 		e => machinery_error(&format!("unknown engine {} in replay file", e)),
 	}
 }
